@@ -46,11 +46,17 @@ def nest_designs(tier, seed):
     add(D([A2, B2], nest(cross('A', 'A'), cross('B', 'B'), [['AtMostKInARow', 1, 'B', 'b0']])))
     add(D([A2, B2], nest(cross('A', 'A'), cross('B', 'B'), [['AtMostKInARow', 2, 'A', 'a0']])))
     add(D([A2, B2], nest(cross('A', 'A'), cross('B', 'B'), [['Pin', 1, 'B', 'b0']])))
+    # MinimumTrials on the Nest, not a multiple of the inner length, with a Pin in the outer block
+    add(D([A3, B3], nest(cross('A', 'A', [['Pin', 0, 'A', 'a0']]), cross('B', 'B'), [['MinimumTrials', 11]])))
+    add(D([A2, B2], nest(cross('A', 'A', [['Pin', 0, 'A', 'a0']]), cross('B', 'B'), [['MinimumTrials', 5]])))
     add(D([A2, B2, C2], nest(nest(cross('A', 'A'), cross('B', 'B')), cross('C', 'C'))))
     add(D([A2, B2, C2], nest(cross('A', 'A'), nest(cross('B', 'B'), cross('C', 'C')))))
     add(D([A2, B3, C2], nest(nest(cross('A', 'A'), cross('B', 'B')), cross('C', 'C'))))
     add(D([A2, B3, C2], nest(cross('A', 'A'), nest(cross('B', 'B'), cross('C', 'C')))))
     if tier == 'thorough':
+        rnd = random.Random(seed * 104729 + 5)
+        for _ in range(150):
+            add(random_nest(rnd))
         add(D([A3, B2, C2], nest(nest(cross('A', 'A'), cross('B', 'B')), cross('C', 'C'))))
         add(D([A2, B2, C2, E2], nest(cross('AE', 'AE'), nest(cross('B', 'B'), cross('C', 'C')))))
         add(D([A2, B2, C2, E2], nest(nest(cross('A', 'A'), cross('BE', 'B')), cross('C', 'C'))))
@@ -75,11 +81,55 @@ def replay(data):
     return replay_design(data)
 
 
+def random_nest(rnd):
+    """A seeded random Nest descriptor: outer block over A (and B), inner block over C (and E), random crossings and
+    constraints on the outer block, the inner block and the Nest itself.  The reference refuses/excludes what the
+    documentation does not define."""
+    fa = rnd.choice([A2, A3])     # (a weighted factor of one of the two crossings is outside the reference)
+    fc = rnd.choice([C2, C3])
+    outer_design = ['A'] + (['B'] if rnd.random() < 0.4 else [])
+    inner_design = ['C'] + (['E'] if rnd.random() < 0.4 else [])
+    outer_cr = ['A'] + (['B'] if 'B' in outer_design and rnd.random() < 0.4 else [])
+    inner_cr = ['C'] + (['E'] if 'E' in inner_design and rnd.random() < 0.4 else [])
+
+    def cons(names, crossed, first, lv):
+        out = []
+        r = rnd.random()
+        if r < 0.15:
+            out.append(['MinimumTrials', rnd.randint(2, 7)])
+        elif r < 0.3:
+            out.append(['Pin', rnd.choice([0, 1, -1]), first, lv + str(rnd.randint(0, 1))])
+        elif r < 0.4:
+            out.append(['ExactlyK', rnd.randint(1, 2), first, lv + '0'])
+        elif r < 0.5:
+            out.append(['Sequential', first])
+        elif r < 0.6 and len(names) > 1:
+            out.append([rnd.choice(['AtMostKInARow', 'AtLeastKInARow']), rnd.randint(1, 2), names[1], names[1].lower() + '0'])
+        elif r < 0.65:
+            out.append(['Exclude', first, lv + '1'])
+        return out
+    oc = [c for c in cons(outer_design, outer_cr, 'A', 'a') if c[0] not in ('AtMostKInARow', 'AtLeastKInARow')]
+    ic = cons(inner_design, inner_cr, 'C', 'c')
+    nc = []
+    r = rnd.random()
+    if r < 0.15:
+        nc.append(['MinimumTrials', rnd.randint(3, 11)])
+    elif r < 0.3:
+        nc.append([rnd.choice(['AtMostKInARow', 'ExactlyK']), rnd.randint(1, 2), 'C', 'c0'])
+    elif r < 0.4:
+        nc.append(['Pin', rnd.choice([0, 1, -1]), 'C', 'c1'])
+    rcc = rnd.random() < 0.8
+    inner = cross(inner_design, inner_cr, ic, rcc=rcc)
+    if rnd.random() < 0.15:
+        inner = repeat(cross(inner_design, inner_cr, [], rcc=rcc), [['MinimumTrials', rnd.randint(2, 5)]] + ic)
+    return D([fa, B2, fc, E2], nest(cross(outer_design, outer_cr, oc, rcc=rcc), inner, nc))
+
+
 def run(ctx):
     ctx.functions += ['cross_block.Nest', 'constraint.Sustain.apply', 'block.BlockGeometry.sustain',
                       'constraint.*.sustain_within_block', 'server.build_cnf']
     ctx.bounds = {'designs': 'outer/inner pairs with 2-3 level factors, inner Multi/Repeat, nested Nest (depth 2), '
-                             'constraints on inner, on outer (Pin, ExactlyK, Sequential, MinimumTrials) and on the Nest'}
+                             'constraints on inner, on outer (Pin, ExactlyK, Sequential, MinimumTrials) and on the Nest; thorough: plus 150 seeded random nests (weighted levels, Exclude, Repeat inside, MinimumTrials on the Nest)'}
     ctx.outside += ['Nest of blocks with preamble trials', 'window factors in the outer block',
                     'run-length constraints given to the outer block (trials vs groups is undocumented)']
     ctx.assumptions += ['reference semantics vf/ref.py rule 8', 'z3/CryptoMiniSat sound']
